@@ -7,6 +7,7 @@ from vlib import orch, harness, env
 from checks import c07_accounting as c07
 
 ID = 'C19'
+CONTRACTS = True     # icontract recording contracts ride along (vlib/contracts.py)
 LEVEL = 'fault_enumeration'
 RULE = ('part A: every single failure placement (missing / reader error / parse / semantic / codegen) '
         'on canonical and random import graphs x 1-3 borrowers (flavour, holdings, errors) x noDeps x '
